@@ -16,6 +16,22 @@ pub fn run(tier: Tier, seed: u64) {
     mismatch(seed);
     validate(seed, tier);
     prover_lattice(seed);
+    first_message_bound(seed);
+}
+
+/// Soundness of the constraint rests on the Fiat-Shamir challenge fixing every digit proof's first message (blinded
+/// digit signature and commitment) and the parameters: if one of them is not hashed, a prover chooses it after seeing
+/// the challenge and links the constraint to any value.  Same query as C12's binding obligation, posed here for the
+/// range constraint because "accepts exactly [0, 2^63)" is false without it.
+fn first_message_bound(seed: u64) {
+    for v in [123456789i64, i64::MAX] {
+        sx::begin(vec![], DrawMode::NonDegenerate, seed);
+        let mut rng = SeedRng::new(seed);
+        let params = RangeConstraintParameters::new(&mut rng);
+        let b = RangeConstraintBuilder::generate_constraint_commitments(v, &params, &mut rng).unwrap();
+        let p = b.generate_constraint_response(sym_challenge("c"));
+        crate::props::c12::binding_of_for("C13", "RangeConstraint", &p, 1);
+    }
 }
 
 struct Rc {
